@@ -5,7 +5,7 @@
      (2) the spec's operations on nodes (spec_get / spec_set / spec_del) are those same value operations
          (pure spec-side lemmas, no marks). *)
 From JV Require Import Lib.Base Model.Ns Model.NsRun Model.NsGuard Model.C11NsFixed Model.C11FixedGuard
-  Spec.NestedDict Spec.NestedDictRun Proofs.NsProofs Proofs.C11EqProofs.
+  Spec.NestedDict Spec.NestedDictRun Proofs.NsProofs Proofs.C11EqProofs Proofs.C11MoreProofs.
 
 Arguments mark : simpl never.
 Arguments unmark : simpl never.
@@ -794,3 +794,77 @@ Proof.
 Qed.
 
 End WithClash.
+
+(* the observable behaviour of the patched code does not depend on the clash set *)
+Lemma clash_names_transparent_fx_proof c1 c2 ops :
+  hist_class_fx c1 ops = 0%N -> hist_class_fx c2 ops = 0%N ->
+  Forall2 (fun m1 m2 : out * alist => unmark_out (fst m1) = unmark_out (fst m2) /\ abs_d (snd m1) = abs_d (snd m2))
+          (run_fixed c1 [] ops) (run_fixed c2 [] ops).
+Proof.
+  intros H1 H2. apply ns_refines_dict_fx_proof in H1, H2. revert H1 H2.
+  generalize (run_fixed c1 [] ops) (run_fixed c2 [] ops) (run_spec [] ops).
+  intros l1. induction l1 as [|m1 l1 IH]; intros l2 ls A B; inversion A; subst; inversion B; subst;
+    constructor.
+  - unfold rel_out in *. intuition congruence.
+  - eapply IH; eauto.
+Qed.
+
+(* ---- one dotted string = step by step, now also THROUGH dict values ------------------------------------- *)
+Section Stepwise.
+Variable clash : list str.
+Notation mark := (mark clash).
+Notation mk := (map mark).
+
+(* a name that can be a segment of a key and does not start with the clash mark *)
+Definition seg_ok2 (a : str) : bool := seg_ok a && good a.
+
+Lemma steps_eq_fget rest : forall a c, seg_ok2 a = true -> forallb seg_ok2 rest = true ->
+  get_steps clash (a :: rest) c =
+  match fget (mk (removelast (a :: rest))) (mark (last (a :: rest) [])) c with Some v => Ok v | None => Fail end.
+Proof.
+  induction rest as [|b r IH]; intros a c Ha Hr; apply andb_true_iff in Ha; destruct Ha as [Sa Ga].
+  - cbn [removelast last map]. unfold fget. cbn [walk_fx get_steps].
+    destruct c; try reflexivity; cbn [attrs key_in].
+    + rewrite (unmark_mark clash a Ga). destruct (aget a d); reflexivity.
+    + rewrite (getitem_single clash a d Sa). destruct (aget (mark a) d); reflexivity.
+  - cbn [forallb] in Hr. apply andb_true_iff in Hr. destruct Hr as [Hb Hr].
+    change (removelast (a :: b :: r)) with (a :: removelast (b :: r)).
+    change (last (a :: b :: r) []) with (last (b :: r) []).
+    cbn [map]. rewrite fget_cons.
+    change (get_steps clash (a :: b :: r) c) with
+      (match c with
+       | VNs d => match ns_getitem clash a d with Ok v => get_steps clash (b :: r) v | Fail => Fail end
+       | VDict dd => match aget a dd with Some v => get_steps clash (b :: r) v | None => Fail end
+       | _ => Fail
+       end).
+    destruct c; try reflexivity; cbn [attrs key_in].
+    + rewrite (unmark_mark clash a Ga). destruct (aget a d) as [v|]; [|reflexivity]. exact (IH b v Hb Hr).
+    + rewrite (getitem_single clash a d Sa). destruct (aget (mark a) d) as [v|]; [|reflexivity]. exact (IH b v Hb Hr).
+Qed.
+
+Lemma seg_ok2_all a rest : seg_ok2 a = true -> forallb seg_ok2 rest = true ->
+  seg_ok a = true /\ forallb seg_ok rest = true.
+Proof.
+  intros Ha Hr. apply andb_true_iff in Ha. destruct Ha as [Ha _]. split; [exact Ha|].
+  induction rest as [|b r IH]; [reflexivity|]. cbn [forallb] in *. apply andb_true_iff in Hr. destruct Hr as [Hb Hr].
+  apply andb_true_iff in Hb. destruct Hb as [Hb _]. now rewrite Hb, (IH Hr).
+Qed.
+
+Lemma stepwise_eq_dotted_fx_proof a rest root : seg_ok2 a = true -> forallb seg_ok2 rest = true ->
+  ns_get_steps clash (join_segs a rest) root = fx_getitem clash (join_segs a rest) root.
+Proof.
+  intros Ha Hr. destruct (seg_ok2_all a rest Ha Hr) as [Sa Sr].
+  unfold ns_get_steps. rewrite (split_join a rest Sa Sr).
+  assert (N : a :: rest <> []) by discriminate.
+  pose proof (parse_join clash a rest Sa Sr) as P.
+  rewrite (app_removelast_last [] N) in P.
+  rewrite (getitem_fx_parsed clash _ _ _ root P).
+  exact (steps_eq_fget rest a (VNs root) Ha Hr).
+Qed.
+
+End Stepwise.
+
+(* items of a tree in the patched model's stored form (the function is the same code as before the patch) *)
+Lemma items_agree_fx_proof clash br root : wf2 clash (VNs root) = true ->
+  map (fun kv => (fst kv, unmark_val (snd kv))) (ns_items br root) = spec_items br (abs_d root).
+Proof. intros W. exact (items_agree_proof clash br root (wf2_wf_val clash _ W)). Qed.
